@@ -329,18 +329,19 @@ inductive Op
   | cancelRej (r : Report)
   deriving DecidableEq, Repr
 
-/-- outcome of one call, with the ClOrdID of a request that was built -/
+def liftBuild (r : Order × Res Msg) : Order × Res (Option Msg) :=
+  (r.1, match r.2 with | .ok m => .ok (some m) | .raised e => .raised e)
+
+def liftRet (r : Order × Res Bool) : Order × Res (Option Msg) :=
+  (r.1, match r.2 with | .ok _ => .ok none | .raised e => .raised e)
+
+/-- outcome of one call: the request that was built, if any -/
 def applyOp (o : Order) : Op → Order × Res (Option Msg)
-  | .newReq => match newReq o with
-    | (o', .ok m) => (o', .ok (some m)) | (o', .raised e) => (o', .raised e)
-  | .cancelReq => match cancelReq o with
-    | (o', .ok m) => (o', .ok (some m)) | (o', .raised e) => (o', .raised e)
-  | .replaceReq p q => match replaceReq o p q with
-    | (o', .ok m) => (o', .ok (some m)) | (o', .raised e) => (o', .raised e)
-  | .execReport r => match processExecReport o r with
-    | (o', .ok _) => (o', .ok none) | (o', .raised e) => (o', .raised e)
-  | .cancelRej r => match processCancelRej o r with
-    | (o', .ok _) => (o', .ok none) | (o', .raised e) => (o', .raised e)
+  | .newReq => liftBuild (newReq o)
+  | .cancelReq => liftBuild (cancelReq o)
+  | .replaceReq p q => liftBuild (replaceReq o p q)
+  | .execReport r => liftRet (processExecReport o r)
+  | .cancelRej r => liftRet (processCancelRej o r)
 
 def runOps (o : Order) : List Op → Order
   | [] => o
